@@ -16,14 +16,16 @@ import cli_common as K
 import common as C
 from props.c08 import parse_mismatches
 
-IN_MODEL = "/S/cwd/in.skops"
+def in_model(case):
+    import posixpath
+    return posixpath.normpath(posixpath.join("/S/cwd", case.get("input", "in.skops").replace("{S}", "/S")))
 
 
 def dst_model(case):
     import posixpath
     if case["output"] is not None:
         return posixpath.normpath(posixpath.join("/S/cwd", case["output"].replace("{S}", "/S").replace("{X}", "/X")))
-    return IN_MODEL if case["inplace"] else None
+    return in_model(case) if case["inplace"] else None
 
 
 def expected_write(case):
@@ -64,6 +66,12 @@ def make_cases(R):
                       "obj": "nested", "pre_dst": tmp == "same", "flags": ["-v"]})
     cases.append({"proto": "1", "okind": "bare", "output": "quiet.skops", "inplace": False, "tmp": "xfs",
                   "obj": "dictarr", "pre_dst": True, "flags": []})
+    # the input archive somewhere else than the working directory: relative paths given with -o stay relative to cwd
+    for inp in ("sub/in.skops", "{S}/abs/in.skops", "./sub/../sub/in.skops"):
+        for okind, out, inplace in (("bare", "out.skops", False), ("nested", "sub/out.skops", False), ("none", None, True),
+                                    ("same-as-input", inp, False), ("absolute", "{S}/abs/out.skops", False)):
+            cases.append({"proto": rnd.choice(["0", "1"]), "okind": okind, "output": out, "inplace": inplace, "tmp": rnd.choice(["same", "xfs"]),
+                          "obj": rnd.choice(objs), "pre_dst": rnd.random() < 0.5, "flags": ["-v"], "input": inp})
     if R.tier == "thorough":
         for proto in ("0", "1"):
             for pool in (bare, nested, absolute, same_as_input):
@@ -104,22 +112,23 @@ def implementation_text(case, res):
         # without -v the INFO record is not shown: the outcome is read off the destination instead
         d = dst_model(case)
         if d and res["final"]["files"].get(d) == K.NEW_TOKEN:
-            out = "wrote:" + (case["output"] or "in.skops")
+            out = "wrote:" + (case["output"] or case.get("input", "in.skops").replace("{S}", "/S"))
     return f"{out} ## {K.trace_text(res['timeline'], res['final']['text'])} ## {res['final']['text']}"
 
 
 def coq_case(case, res):
     pr = {"0": "Older", "1": "Older", "cur": "Same", "cur+1": "Newer"}[case["proto"]]
     out = case["output"].replace("{S}", "/S").replace("{X}", "/X") if case["output"] is not None else None
+    inp = case.get("input", "in.skops").replace("{S}", "/S")
     return (f"(({K.cfs(res['initial'])}, {pr}, {K.copt(out, C.cstr)}, {C.cbool(case['inplace'])}, "
-            f"{C.cbool(case['tmp'] == 'same')}), {C.cstr(implementation_text(case, res))})")
+            f"{C.cbool(case['tmp'] == 'same')}, {C.cstr(inp)}), {C.cstr(implementation_text(case, res))})")
 
 
 PRELUDE = """From Skv Require Import PyStr Json Fs Update Corr.
 Open Scope N_scope.
-Definition run (c : fs * proto_rel * option pstr * bool * bool) : pstr :=
-  let '(st, pr, out, inpl, sfs) := c in
-  let w := mkworld [s "S"; s "cwd"] (parse_path (s "in.skops")) [9; 9; 9; 9] (s "T")
+Definition run (c : fs * proto_rel * option pstr * bool * bool * pstr) : pstr :=
+  let '(st, pr, out, inpl, sfs, inp) := c in
+  let w := mkworld [s "S"; s "cwd"] (parse_path inp) [9; 9; 9; 9] (s "T")
                    (if sfs then [s "S"; s "tmp"] else [s "X"; s "tmp"]) in
   show_run (mkenv (Some [s "X"])) st
            (update_ops w (cfg_for w st pr (option_map parse_path out) inpl sfs)).
@@ -163,7 +172,7 @@ def oracle(case, res):
                     + (f"; residue {residue}" if residue else "")))
     if not exc and (orc.get("dst_protocol") != orc["protocol"] or not orc.get("dst_loads_equal")):
         bad.append(({**sig0, "kind": "result-loads"}, f"written archive: protocol {orc.get('dst_protocol')}, loads equal: {orc.get('dst_loads_equal')}, {orc.get('dst_error')}"))
-    if d != IN_MODEL and not orc.get("input_unchanged"):
+    if d != in_model(case) and not orc.get("input_unchanged"):
         bad.append(({**sig0, "kind": "input-altered"}, "input bytes changed although the destination is another file"))
     return bad
 
@@ -243,7 +252,7 @@ def run(R, only=None):
             done.append((case, o["res"]))
         rows = [coq_case(c, r) for c, r in done]
         try:
-            bad = K.model_mismatches(R, "Cases_C16", PRELUDE, "fs * proto_rel * option pstr * bool * bool", rows)
+            bad = K.model_mismatches(R, "Cases_C16", PRELUDE, "fs * proto_rel * option pstr * bool * bool * pstr", rows)
         except C.CoqError as e:
             bad = []
             R.obligation_broken("correspondence C16/model evaluation", e.out[-1500:])
